@@ -254,6 +254,10 @@ func c20case(text string, class string) {
 				c20oracle("cell below the reported dimensions cannot be read", J{"text": textShown, "text_hex": c20hex(text), "class": class})
 				continue
 			}
+			if s != f {
+				c20oracle("field is not read back verbatim by CellString",
+					J{"field": f, "observed_cell": fmt.Sprintf("%T(%v)", v, v), "observed_cell_string": s, "class": class})
+			}
 			want, err := strconv.ParseFloat(f, 64)
 			if err == nil {
 				got, isFloat := v.(float64)
@@ -262,8 +266,8 @@ func c20case(text string, class string) {
 				}
 			} else {
 				gotS, isString := v.(string)
-				if !isString || gotS != f || s != f {
-					c20oracle("non-numeric field is not read back as text",
+				if !isString || gotS != f {
+					c20oracle("non-numeric field is not loaded as a text cell",
 						J{"field": f, "observed_cell": fmt.Sprintf("%T(%v)", v, v), "observed_cell_string": s})
 				}
 			}
@@ -470,9 +474,9 @@ func runC20(args []string) {
 		confirmed := false
 		if t, err := ds.Table("t"); err == nil && ds.Errors() == nil {
 			_, isBool := t.Cell(0, 0).(bool)
-			confirmed = isBool && t.CellString(0, 0) == ""
+			confirmed = isBool && t.CellString(0, 0) == "T"
 		}
-		emit(J{"kind": "witness", "name": "C20_non_numeric_as_text_refuted", "input": "a\\nT\\n", "confirmed": confirmed})
+		emit(J{"kind": "witness", "name": "C20_non_numeric_as_text_cell_refuted", "input": "a\\nT\\n", "confirmed": confirmed})
 	}
 	emit(J{"kind": "stat", "stats": c20stats})
 }
